@@ -233,6 +233,16 @@ def layout_programs(rnd, n):
     out.append({"lines": L(" NOP", " ORG $10", " NOP", " ORG $5", " NOP"), "tag": "org-later", "meta": {"b1": True}})
     out.append({"lines": L(" ORG $100", "A NOP", " ORG $200", "B NOP", " JMP A", " JMP B"), "tag": "org-later", "meta": {"b1": True}})
     out.append({"lines": L("A NOP", " ORG $300", "B NOP"), "tag": "code-before-org", "meta": {"b1": True}})
+    # the ORG rule (fix f9c374f): an ORG after the first byte or the first address label is rejected; after statements that emit
+    # nothing and carry no address label it is accepted and the image is laid out from the LAST such ORG
+    for pre, ok in (([" NAM X", "C EQU 5"], True), ([" RMB 0"], True), ([" SETDP 0"], True), ([" ORG $10"], True), (["Q ORG $10"], False), (["L RMB 0"], False),
+                    (["L SETDP 0"], False), ([" RMB 1"], False), ([" FCB 1"], False), ([" NOP"], False), (["L EQU 7"], True), (["L NAM X"], False),
+                    ([" FCC //"], True), (["M FCC //"], False), ([" ORG $10", " ORG $20", "C EQU 1+2"], True)):
+        for body in (["S LDA #1", " BRA S", "T FDB S", " LEAX T,PCR", " JMP S"], ["S NOP", " LBRA S"]):
+            out.append({"lines": L(*(pre + [" ORG $0E00"] + body)), "tag": "org-rule", "meta": {"reject": not ok, "accept": ok}})
+    out.append({"lines": L("L RMB 0", " ORG $100", " BRA L"), "tag": "org-rule", "meta": {"reject": True}})
+    out.append({"lines": L(" BRA L", " ORG $100", "L NOP"), "tag": "org-rule", "meta": {"reject": True}})
+    out.append({"lines": L(" LEAX L,PCR", " ORG $100", "L NOP"), "tag": "org-rule", "meta": {"reject": True}})
     out.append({"lines": L("A NOP", "A NOP"), "tag": "dup", "meta": {"reject": True}})
     out.append({"lines": L("A EQU 5", "A NOP"), "tag": "dup", "meta": {"reject": True}})
     out.append({"lines": L("A NOP", " NOP", "A EQU 5"), "tag": "dup", "meta": {"reject": True}})
@@ -257,6 +267,9 @@ def run_c02(run, thorough=False):
         if c["meta"].get("reject"):
             if im["k"] != "diag":
                 run.violate("C02: a label defined twice / a symbol never defined is not rejected with a diagnostic", inp, "diag", im["k"])
+            continue
+        if c["meta"].get("accept") and im["k"] != "ok":
+            run.violate("C02: a program whose ORG precedes the first label and byte is rejected", inp, "ok", im["k"])
             continue
         if im["k"] != "ok":
             continue
@@ -312,7 +325,7 @@ def run_c02(run, thorough=False):
             if not ok:
                 run.violate("C02: statements cannot be laid out contiguously from one origin (later ORG / code before ORG) yet the program is accepted "
                             "and the image does not place the bytes at the listed addresses", inp, "rejected, or offsets = address - origin",
-                            {"origin": im["origin"], "stmts": [[s["mn"], s["addr"]] for s in stmts][:8]}, known_id="B1" if same else None)
+                            {"origin": im["origin"], "stmts": [[s["mn"], s["addr"]] for s in stmts][:8]}, known_id=None)            # (was finding B1; repaired in f9c374f: such programs are rejected now)
 
 
 # ------------------------------------------------------------------ C03
@@ -394,7 +407,7 @@ def run_c03(run, thorough=False):
                 emitted = False
                 for x in im["stmts"]:
                     if x["mn"] == "ORG" and emitted:
-                        rid = "B1"
+                        rid = None            # (was finding B1: a displacement across an ORG; repaired in f9c374f)
                     if x["bytes"]:
                         emitted = True
             run.violate("C03: (address of the following instruction + displacement) mod 65536 is not the address of the referenced label (+constant)", inp,
